@@ -356,13 +356,22 @@ func (g *simGraph) Exist(ctx context.Context, t *triple.Triple) (bool, error) {
 }
 
 func collect[T any](call func(chan<- T) error) ([]T, error) {
-	ch := make(chan T, 1<<14)
-	if err := call(ch); err != nil {
-		return nil, err
-	}
+	// The result is drained concurrently: however large it is, the driver never stays blocked on a full buffer. The
+	// drainer is plain harness code (no yield points); it only runs while the caller is blocked sending.
+	ch := make(chan T, 256)
 	var out []T
-	for x := range ch {
-		out = append(out, x)
+	done := make(chan struct{})
+	go func() {
+		for x := range ch {
+			out = append(out, x)
+		}
+		close(done)
+	}()
+	err := call(ch)
+	closedByCallee(ch) // a driver that forgot to close is closed here, so that the drainer always ends
+	<-done
+	if err != nil {
+		return nil, err
 	}
 	return out, nil
 }
